@@ -22,6 +22,7 @@ import (
 func init() {
 	vRegister("c06_mbt", c06MBT)
 	vRegister("c06_tv", c06TV)
+	vRegister("c06_rerun", c06Rerun)
 }
 
 type c06Result struct {
@@ -81,7 +82,7 @@ func c06MBT(d *vCtx) error {
 	cases := make([]*c06Case, len(raw))
 	for i, m := range raw {
 		cases[i] = c06ParseCase(m)
-		c06Concretise(cases[i], d.rng(int64(1000+i)))
+		c06Concretise(cases[i], d.rng(int64(c06Int(m, "stream", 1000+i))))
 	}
 	res, err := c06RunAll(d, cases, d.pInt("workers", 16))
 	if err != nil {
@@ -376,7 +377,7 @@ func c06TV(d *vCtx) error {
 		}
 		t.VerAbs = []string{"zero", "p2", "new"}[rng.Intn(3)]
 		st := c06Step{Ctl: "none", Toks: []c06Tok{t, {T: "fin", Marker: c06Markers[i%5], Place: "near"}}}
-		if rng.Intn(2) == 0 {
+		if i >= 6 && rng.Intn(2) == 0 {
 			st.Toks = append([]c06Tok{{T: "junk"}}, st.Toks...)
 		}
 		c.Steps = []c06Step{st}
@@ -454,4 +455,44 @@ func c06TV(d *vCtx) error {
 	d.set("long_histories", nlong)
 	d.set("lookahead_sessions", nlook)
 	return nil
+}
+
+// c06Rerun feeds recorded sessions (exact bytes) to the current tree again and records a
+// trace for DetectorTrace (used by ./check C06 --replay for trace-validation findings).
+func c06Rerun(d *vCtx) error {
+	raw, err := vReadNDJSON(d.pStr("cases", d.path("cases.ndjson")))
+	if err != nil {
+		return err
+	}
+	cases := make([]*c06Case, len(raw))
+	levels := make([]string, len(raw))
+	for i, m := range raw {
+		cases[i] = c06ParseCase(m)
+		levels[i] = c06Str(m, "level")
+		cases[i].Filter = levels[i] == "filter"
+		c06Concretise(cases[i], d.rng(int64(9000+i)))
+	}
+	res, err := c06RunAll(d, cases, 4)
+	if err != nil {
+		return err
+	}
+	tr, err := vNewTrace(d.path("trace-rerun.ndjson"))
+	if err != nil {
+		return err
+	}
+	for i, c := range cases {
+		obs := res[i].det
+		if levels[i] == "filter" {
+			if res[i].filErr != nil {
+				return res[i].filErr
+			}
+			obs = res[i].fil
+		}
+		tr.Emit(map[string]any{"e": "reset", "role": c.Role, "win": c.Win}, nil)
+		for si := range obs {
+			tr.Emit(c06ChunkEvent(levels[i], &c.Steps[si], &obs[si]), nil)
+		}
+	}
+	d.set("events", tr.Len())
+	return tr.Close()
 }
